@@ -315,6 +315,9 @@ structure Passive (α : Type) where
   dragCoeff : α
   dragCorrection : α
   toLocalDrag : α
+  /-- the bulk drag coefficient bound into the hydrodynamic spectrum when the model is built
+      (`partial(passive_power_spectrum_model_hydro, gamma0=self.drag_coeff, …)`); `_set_drag` does not rebind it -/
+  spectrumGamma0 : α
 
 /-- `PassiveCalibrationModel.__init__`: the validation chain in the code's order, then the derived numbers. -/
 def Passive.init [RPow α] (c : PassiveCfg α) : Except Err (Passive α) :=
@@ -332,7 +335,7 @@ def Passive.init [RPow α] (c : PassiveCfg α) : Except Err (Passive α) :=
     if lt c.rhoBead 100.0 then .error .value else
     let R := c.diameter * 1.0e-6 / 2.0
     let l := c.distance.map (· * 1.0e-6)
-    .ok ⟨c, eta, drag, 1.0, (complexDrag 0.0 1.0 rhoS R l).1⟩
+    .ok ⟨c, eta, drag, 1.0, (complexDrag 0.0 1.0 rhoS R l).1, drag⟩
   else
     let corr := match c.distance with
       | some l =>
@@ -341,13 +344,13 @@ def Passive.init [RPow α] (c : PassiveCfg α) : Except Err (Passive α) :=
         else if c.axial then brenner (l * 1.0e-6) (c.diameter * 1.0e-6 / 2.0)
         else faxen (l * 1.0e-6) (c.diameter * 1.0e-6 / 2.0)
       | none => 1.0
-    .ok ⟨c, eta, drag, corr, 1.0⟩
+    .ok ⟨c, eta, drag, corr, 1.0, drag⟩
 
 /-- the physical spectrum selected by `__init__` -/
 def Passive.physical (m : Passive α) (f fc D : α) : α :=
   if m.cfg.hydro then
     let rhoS := match m.cfg.rhoSample with | some r => r | none => 997.0
-    hydroPsd f fc D m.dragCoeff (m.cfg.diameter * 1.0e-6 / 2.0) rhoS m.cfg.rhoBead (m.cfg.distance.map (· * 1.0e-6))
+    hydroPsd f fc D m.spectrumGamma0 (m.cfg.diameter * 1.0e-6 / 2.0) rhoS m.cfg.rhoBead (m.cfg.distance.map (· * 1.0e-6))
   else lorentzian f fc D
 
 /-- `PassiveCalibrationModel.__call__(f, fc, D, f_diode, alpha)` (`fast_sensor`: no filter parameters, factor 1) -/
@@ -356,6 +359,11 @@ def Passive.call (m : Passive α) (f fc D fd a : α) : α :=
 
 /-- `model._drag = drag_coeff · _drag_correction_factor` -/
 def Passive.drag (m : Passive α) : α := m.dragCoeff * m.dragCorrection
+
+/-- `model._set_drag(drag)` (what `calibrate_force(..., drag=…)` does to carry a bulk drag coefficient over from another
+    calibration): the model reports the new coefficient; the spectrum it was built with — bead radius, densities,
+    distance to the surface in metres, the bulk drag bound at construction — stays as it is. -/
+def Passive.setDrag (m : Passive α) (g : α) : Passive α := { m with dragCoeff := g }
 
 /-! ### wrappers composed on a model object (`model._motion_blur(T)._alias_model(fs, n)` …) -/
 
@@ -430,6 +438,7 @@ def chain? : List String → Option (List (Wrapper Float))
   `c20.passive <cfg 9 tokens> f fc D fd α`  -> `[psd, drag_coeff, drag_correction, to_local_drag, viscosity]` or an error name
   `c20.passiveblur <cfg> T f fc D fd α` · `c20.passivealias <cfg> fs n f fc D fd α`
   `c20.passivechain <cfg> f fc D fd α <steps: B T | A fs n …>` -> the spectral density after every prefix of the chain
+  `c20.passivesetdrag <cfg> f fc D fd α γ <steps>` -> `[psd before, psd after _set_drag(γ), after every further step…, drag_coeff, _drag]`
   `c20.water V|D [T,…] c|N p|N` -> `viscosity_of_water` / `density_of_water` at each temperature, or an error name -/
 def handle : List String → Option String
   | ["c20.lor", f, fc, D] => do
@@ -522,6 +531,20 @@ def handle : List String → Option String
       match Passive.init c with
       | .error e => some (showErr e)
       | .ok m => some (showFloatList (chainStages ws (fun f => m.call f fc D fd a) f))
+    | _ => none
+  | "c20.passivesetdrag" :: rest =>
+    if rest.length < 15 then none else do
+    let c ← cfg? (rest.take 9)
+    match (rest.drop 9).take 6 with
+    | [f, fc, D, fd, a, g] =>
+      let f ← float? f; let fc ← float? fc; let D ← float? D; let fd ← float? fd; let a ← float? a; let g ← float? g
+      let ws ← chain? (rest.drop 15)
+      if chainCost ws > 200000 then none else
+      match Passive.init c with
+      | .error e => some (showErr e)
+      | .ok m =>
+        let m' := m.setDrag g
+        some (showFloatList (m.call f fc D fd a :: chainStages ws (fun f => m'.call f fc D fd a) f ++ [m'.dragCoeff, m'.drag]))
     | _ => none
   | ["c20.water", fn, ts, c, p] => do
     let ts ← floatList? ts; let c ← optFloat? c; let p ← optFloat? p
